@@ -37,51 +37,51 @@ def J(test, quick, thorough, steps=40, race=False, kind="rapid", env=None, timeo
 
 
 CHECKS = {
-    "C01": dict(level="exploration", jobs=[J("TestC01", (4, 600), (16, 6000), steps=45)],
+    "C01": dict(level="exploration", jobs=[J("TestC01", (4, 1500), (16, 12000), steps=45)],
                 rule="one case = one generated API history (publish/delete/trim/compact/GC/sync/reopen with re-drawn options, index removal, migrate, package-level tools) executed against a real log and the reference model with a full scan from OffsetOldest after every step; non-trivial = the history reached >=2 segments AND contains a delete or a reopen; distinct = hash of the concrete operation trace"),
-    "C02": dict(level="exploration", jobs=[J("TestC02", (4, 600), (16, 8000), steps=45)],
+    "C02": dict(level="exploration", jobs=[J("TestC02", (4, 1500), (16, 12000), steps=45)],
                 rule="one case = one generated history biased to delete-newest/delete-all/empty batch/reopen; after every Publish the returned offset, the written-back offsets, and after every step NextOffset/Sync are compared with the model counter (which never decreases, so reuse is a mismatch); non-trivial = history contains (tail-or-all delete) -> reopen -> publish; distinct by trace hash"),
-    "C03": dict(level="exploration", jobs=[J("TestC03", (4, 350), (16, 4000), steps=40)],
+    "C03": dict(level="exploration", jobs=[J("TestC03", (4, 1000), (16, 8000), steps=40)],
                 rule="one case = one history; after every step Consume is called at every offset in [-5, NextOffset+2] with maxCount cycling through {1,2,3,5,8,40} and checked with a validity predicate over the model, plus the feed-back iteration from OffsetOldest; non-trivial = a sweep happened on a state with >=2 segments and at least one queried offset inside a hole; distinct by trace hash"),
-    "C04": dict(level="exploration", jobs=[J("TestC04", (4, 350), (16, 4000), steps=40)],
+    "C04": dict(level="exploration", jobs=[J("TestC04", (4, 1000), (16, 8000), steps=40)],
                 rule="one case = one history; after every step Get at every offset in [0, NextOffset+2] and both relative offsets, classified live/deleted/unassigned by the model, and compared with Consume(offset,1); non-trivial = a deleted offset was queried on a state with >=2 segments; distinct by trace hash"),
-    "C08": dict(level="exploration", jobs=[J("TestC08Windows", (4, 400), (16, 4000), timeout=(900, 5400)), J("TestC08Stress", (4, 2), (16, 6), race=True, kind="plain", timeout=(900, 5400)),
-                                                 J("TestC08Windows", (4, 150), (16, 1500), race=True, env={"VF_TIMED": "1"}, timeout=(900, 5400))],
+    "C08": dict(level="exploration", jobs=[J("TestC08Windows", (4, 1200), (16, 15000), timeout=(900, 5400)), J("TestC08Stress", (4, 3), (16, 10), race=True, kind="plain", timeout=(900, 5400)),
+                                                 J("TestC08Windows", (4, 300), (16, 4000), race=True, env={"VF_TIMED": "1"}, timeout=(900, 5400))],
                 rule="windows job: one evaluation = one owned schedule: a generated sequential prefix (publish/delete/GC on a small-rollover log), then call A (Publish with/without rollover, Delete on head/reader segment, a read, GC) held at the k-th occurrence of one of 11 pause points while up to two further complete calls (any of Publish, Consume, ConsumeByKey, Get, GetByKey, GetByTime, Delete, NextOffset, Sync, GC, Stat) are issued, then A is released; oracle = brute-force linearization of the <=3 calls (some order consistent with real time replays on the reference model with every observed result admissible, no error the sequential contract does not allow); non-trivial = the armed point was actually reached; distinct by (point, call kinds, occurrence, case hash). stress job (built with -race): one evaluation = one API call inside a seeded free-running mix (1-3 publishers, 1-2 deleters aimed at the head, 1-3 cursor readers doing all read calls, GC/Stat/Sync) with timed sleeps at the pause points; oracle = Go race detector + history invariants (disjoint dense offset ranges, content never changes, nothing disappears or is stepped over unless a Delete reported it, no call fails because of concurrent activity, final content == published minus reported deleted); non-trivial round = at least one rollover and one delete of the newest message. The windows job also runs on the -race binary in timed mode (A is held by a sleep instead of a channel, so the detector sees the other calls as concurrent with the rest of A)",
                 level_note="interleavings reachable through the listed pause points plus what the seeded stress happens to hit; the race detector only reports races that execute; free-running runs are not reproducible by construction (their replay file is the recorded history / race report)"),
-    "C09": dict(level="exploration", jobs=[J("TestC09", (4, 300), (16, 3000), steps=40)],
+    "C09": dict(level="exploration", jobs=[J("TestC09", (4, 500), (16, 5000), steps=40)],
                 rule="one case = one history over a key universe with nil, empty, prefix-related keys and three real FNV-1a-64 collision pairs; after every step GetByKey/OffsetByKey/ConsumeByKey (iteration and every cursor offset) for every key incl. absent ones; non-trivial = a lookup ran while a different key with the same hash was live; distinct by trace hash"),
-    "C10": dict(level="exploration", jobs=[J("TestC10", (4, 400), (16, 4000), steps=40)],
+    "C10": dict(level="exploration", jobs=[J("TestC10", (4, 1200), (16, 10000), steps=40)],
                 rule="one case = one history with non-decreasing times and equal-timestamp runs, rollover re-drawn at every open; after every step GetByTime/OffsetByTime at every microsecond from min-1 to max+1; non-trivial = time-indexed log where an answered run of equal timestamps existed on a multi-segment state, or the head segment was emptied by a tail delete; distinct by trace hash"),
-    "C11": dict(level="exploration", jobs=[J("TestC11", (4, 250), (16, 2000), steps=35)],
+    "C11": dict(level="exploration", jobs=[J("TestC11", (4, 350), (16, 3000), steps=35)],
                 rule="one case = one history; at every close every index file is compared with the index derived from its log by the independent parser, and the directory is copied and reopened (RW and RO alternating) with all / each single (thorough: random subsets of) index files removed and fully observed against the model; non-trivial = an index of a non-head segment was removed, or a multi-segment log with deletes/migration was closed and reopened; distinct by trace hash"),
-    "C12": dict(level="exploration", jobs=[J("TestC12", (4, 500), (16, 6000), steps=45)],
+    "C12": dict(level="exploration", jobs=[J("TestC12", (4, 1200), (16, 10000), steps=45)],
                 rule="one case = one history biased to deletes of every shape; every delete is checked: returned subset of requested and live, byte-equal content, exact size from the segment file version, relative/empty/repeat rules, then the full scan equals the pre-state minus the returned messages; non-trivial = >=2 different structural delete outcomes (segment role x same-base/rebased/emptied/tail) or one outcome plus a reopen; distinct by trace hash"),
     "C05": dict(level="fault_enumeration", jobs=[J("TestC05", (8, 40), (16, 1500), timeout=(1200, 7200))],
                 rule="one evaluation = one crash image checked: a generated workload (publish batches with frequent rollover, single Delete in reader/head segments incl. rebasing/emptying/tail, reopen plain/Recover/EagerVersionMigrate/index files removed + lazy rebuild, package Migrate/Recover, Sync, GC) runs to completion under the FS tap, which snapshots the directory after EVERY file-system step; each snapshot is an image, each record/index-item append additionally yields torn variants (quick: 10 cut points, thorough: every byte), and the recovery of every n-th image / torn cut is itself run under the tap for depth-2 images; oracle = Open(Recover) succeeds, scan is one of the admissible logs computed from the uncrashed run, all views agree, NextOffset not backwards, second Recover byte-identical, appendable, Check passes; non-trivial = image directory differs from both the pre- and post-operation directory; distinct by (kind, op, delete outcome, FS site, normalised listing)",
                 level_note="granularity is the FS step plus torn appends; 8-byte file headers atomic (no file of length 1..7), as the property states; no reordering inside the kernel; relies on the verif-tag FS tap being complete (self-checked on every run: an unexplained directory change makes the run inconclusive)"),
-    "C06": dict(level="fault_enumeration", jobs=[J("TestC06", (8, 60), (16, 1500), timeout=(1200, 7200))],
+    "C06": dict(level="fault_enumeration", jobs=[J("TestC06", (8, 150), (16, 2500), timeout=(1200, 7200))],
                 rule="one evaluation = one power-loss image checked: same workloads as C05 plus Sync operations and AutoSync configurations; the tap tracks per file (followed across renames) the length at its last fsync; at every FS step images are synthesised under the stated tail-loss model: every file independently cut to a length in [fsynced, current] (all-min, each-file-min/others-max and vice versa, random vectors incl. record boundaries +-1, never a length in 1..7), directory entries as in the current directory; oracle = Open(Recover) succeeds, the scan is a prefix of an admissible log containing every live message below the acknowledged offset w (latest Sync return / AutoSync Publish return / Close), NextOffset >= w, views agree, appendable, Check passes; non-trivial = at least one file strictly shorter than current and w > 0; distinct by (op, FS site, w, listing)",
                 level_note="a simulation of the storage model the property states (per-file tail loss, directory operations durable in program order), not a disk; soundness depends on complete FS taps (self-checked; a gap makes the run inconclusive)"),
-    "C07": dict(level="fault_enumeration", jobs=[J("TestC07", (4, 12), (16, 40)), J("FuzzRecoverBytes", (0, 0), (1, 60), kind="fuzz")],
+    "C07": dict(level="fault_enumeration", jobs=[J("TestC07", (4, 25), (16, 60)), J("FuzzRecoverBytes", (0, 0), (1, 60), kind="fuzz")],
                 rule="one evaluation = one damaged head segment: a segment of 1..6 generated messages (four index configurations, V2; V1 for truncation only) written by the repository's writers, then EVERY truncation length (0, >=8), every byte position after the header (quick: one bit + 0x00 + 0xFF; thorough: all 8 bits), zero/0xFF/pattern tails of every length up to two records, and every index damage (missing, every truncation, every byte, extra items, other layout/container); oracle = independent reference parser (longest valid prefix, derived index); non-trivial = valid prefix is proper and non-empty, or only the index is damaged; distinct by (segment hash, damage)",
                 exhaustive_note="per generated segment the enumerated damage space is complete (thorough) / complete for truncations and index damage, sampled bits for byte corruption (quick)"),
-    "C13": dict(level="exploration", jobs=[J("TestC13Codec", (4, 5000), (16, 100000)), J("TestC13Hist", (2, 300), (8, 3000), steps=40), J("FuzzParseDifferential", (0, 0), (1, 60), kind="fuzz")],
+    "C13": dict(level="exploration", jobs=[J("TestC13Codec", (4, 15000), (16, 150000)), J("TestC13Hist", (2, 800), (8, 6000), steps=40), J("FuzzParseDifferential", (0, 0), (1, 60), kind="fuzz")],
                 rule="codec job: one case = up to 5 generated messages (key/value 0..300 B plus 4 KiB/70 KiB, times over the whole int64 microsecond range, offsets up to MaxInt64) x V1/V2 x file/mmap reader x four index layouts x both index containers: writer bytes == independent encoder for log and index, reported positions, Size, readers on independently encoded files, parser agreement on a damaged copy; history job: Stat and Log.Size against os.Stat after every step; non-trivial codec case = >=2 records or an empty key/value or a boundary time; history case = multi-segment with deletes; distinct by case hash"),
-    "C14": dict(level="fault_enumeration", jobs=[J("TestC14", (4, 12), (16, 14))],
+    "C14": dict(level="fault_enumeration", jobs=[J("TestC14", (4, 40), (16, 20))],
                 rule="one evaluation = one damage of one .log file of a generated multi-segment V2 log (4..14 messages, deletes, index files intact): bit flip, 1-8 byte overwrite, truncation, zero-filled tail (quick: one position per record field + length-field high bits + 5 cut points per record; thorough: every position, all bits), then a fresh Open and Get/Consume at every offset, GetByKey/ConsumeByKey for every key, GetByTime at every microsecond, each compared with the same call on the undamaged copy and the model (safety, must-fail, unchanged, no panic, <=128 MiB per call); non-trivial = damage inside a record; distinct by (log hash, damage, field hit, segment role)"),
-    "C18": dict(level="exploration", jobs=[J("TestC18", (4, 3000), (16, 40000)), J("TestC18Exhaustive", (3, 0), (8, 0), kind="plain", timeout=(900, 5400)), J("TestC18Free", (2, 300), (8, 3000))],
+    "C18": dict(level="exploration", jobs=[J("TestC18", (4, 10000), (16, 100000)), J("TestC18Exhaustive", (3, 0), (8, 0), kind="plain", timeout=(900, 5400)), J("TestC18Free", (2, 300), (8, 3000))],
                 rule="one evaluation = one complete schedule of a cooperative scheduler inside a testing/synctest bubble: up to 8 waiters (ConsumeBlocking / ConsumeByKeyBlocking, raw and typed wrappers, offsets below/at/above NextOffset and relative), up to 3 publishers (incl. empty batches), cancellations and Close; every goroutine parks at each pause point of the notifier and the blocking wrappers, and each step (resume one parked goroutine / start a call / cancel / Close) is a rapid draw; additionally the complete choice tree is enumerated with an odometer for W=1,P=1 (plain, +cancel, +close, typed), W=1,P=0 (+cancel+close), W=1,P=2 (thorough: W=2,P=1 and W=2,P=1+close), and seeded free-running mixes run without pauses; oracle at every step: a returned waiter had a reason (offset below NextOffset / relative / overlapping Publish, Close, cancel), its result equals what Consume returned at the moment it left the wait, and at FULL quiescence no waiter is blocked that a completed Publish passed, whose context ended, or after Close completed; non-trivial = a Publish-notify, Close or cancel step was taken while a waiter stood between the fast-path check and its park; distinct by (configuration, choice sequence)",
                 level_note="interleavings at the granularity of the listed pause points (verif build tag); Go's select between two simultaneously ready wake-up causes is resolved by the runtime, not by the scheduler; virtual time, no wall clock"),
-    "C19": dict(level="exploration", jobs=[J("TestC19Handles", (2, 1500), (8, 10000)), J("TestC19Hist", (2, 250), (8, 2500), steps=35)],
+    "C19": dict(level="exploration", jobs=[J("TestC19Handles", (2, 5000), (8, 40000)), J("TestC19Hist", (2, 600), (8, 5000), steps=35)],
                 rule="handles job: one case = a sequence of open-RW/open-RO/close/publish/read-only queries/failing opens (flipped index flags, corrupt index with Check, missing directory) over three handle slots, checked against the lock matrix; history job: read-only sessions (1-3 handles, optional index removal) inside C01-style histories with full observation against the model, ErrReadonly, byte comparison of *.log; non-trivial = a failed open followed by a successful one, or >=2 simultaneous read-only handles (handles job) / a read-only session on a multi-segment log (history job); distinct by case hash"),
-    "C15": dict(level="exploration", jobs=[J("TestC15", (4, 400), (16, 4000), steps=40)],
+    "C15": dict(level="exploration", jobs=[J("TestC15", (4, 1500), (16, 12000), steps=40)],
                 rule="one case = one history biased to FindBy*/TrimBy* (offset, count, size on single-version logs, age) in single, Multi and MultiOffsets variants with bounds below/inside/above the live range; prefix and bound predicates from the property; non-trivial = a trim removed messages on a state with >=2 segments; distinct by trace hash"),
-    "C16": dict(level="exploration", jobs=[J("TestC16", (4, 400), (16, 4000), steps=40)],
+    "C16": dict(level="exploration", jobs=[J("TestC16", (4, 1500), (16, 12000), steps=40)],
                 rule="one case = one history over <=5 keys (nil, collision pair) with tombstones, message times on an hour grid relative to the run start so Compact(age) is clock-insensitive; latest-value map before/after and allowed-removal predicates; non-trivial = a compaction removed messages and met a tombstone or a multi-segment log; distinct by trace hash"),
-    "C17": dict(level="exploration", jobs=[J("TestC17", (4, 300), (16, 3000), steps=40)],
+    "C17": dict(level="exploration", jobs=[J("TestC17", (4, 450), (16, 4000), steps=40)],
                 rule="one case = one history where every reopen re-draws NewSegmentsVersion/KeepRewriteVersion/EagerVersionMigrate and Migrate runs to either version; model unchanged across migration (full observation), version byte of every segment file checked after migrate/eager open/publish/delete, migrate twice == once; non-trivial = both versions present at once and a delete or migration afterwards; distinct by trace hash"),
-    "C20": dict(level="exploration", jobs=[J("TestC20", (4, 300), (16, 2500), steps=40)],
+    "C20": dict(level="exploration", jobs=[J("TestC20", (4, 600), (16, 5000), steps=40)],
                 rule="one case = one history with Log.Backup / package Backup into a fresh directory, or into the previous one when only publishes happened since; Check passes, the opened backup is fully observed against the model at the time of the call, source files byte- and mtime-identical (missing index files may be rebuilt); non-trivial = a repeated backup with a rollover in between, or a source with an emptied head / rebased segment; distinct by trace hash"),
 }
 
@@ -189,7 +189,14 @@ def check(pid, tier, seed):
         violations = []
         inconclusive = []
         merged = dict(evaluations=0, counters={}, nt=set(), samples=[], known={}, known_what={}, exhaustive=None, space=[])
-        for ji, job in enumerate(spec["jobs"]):
+        jobs = list(spec["jobs"])
+        regdir = os.path.join(ROOT, "regress", pid)
+        if os.path.isdir(regdir) and any(f.endswith(".json") for f in os.listdir(regdir)):
+            # seconds-long regression tier: saved shrunk cases, replayed without rapid
+            jobs.insert(0, J("TestRegress", (1, 0), (1, 0), kind="plain", env={"VF_REGRESS_DIR": regdir, "VF_PROP": pid}))
+        for ji, job in enumerate(jobs):
+            if job["race"] not in bins:
+                bins[job["race"]] = build(scr, job["race"])
             results = run_job(scr, bins[job["race"]], pid, job, tier, seed, ji)
             for r in results:
                 vl = [l for l in r["out"].splitlines() if l.startswith("VIOLATION property=")]
